@@ -970,7 +970,7 @@ static bool parse_isig(const char* spec, IS& o) {
 // tag bytes: slot i (0..31 arguments of the asmjit->C direction, 32 return value of the C callee, 33..64 arguments passed by the C caller,
 // 65 return value of the asmjit callee).  Every 4/8/10-byte prefix is a normal floating point number (x87 loads must not alter it).
 static const int kTagSlots = 66;
-static uint8_t g_tags[kTagSlots][64];
+alignas(64) static uint8_t g_tags[kTagSlots][64];   // 64-byte aligned: by-reference arguments may point straight at a tag
 static void build_tags() {
   for (int i = 0; i < kTagSlots; i++) {
     for (int j = 0; j < 64; j++) g_tags[i][j] = uint8_t(17 * i + 31 * j + 5 + (j >> 3) * 3);
@@ -1209,12 +1209,159 @@ static sigjmp_buf g_jb;
 static volatile int g_in_call = 0;
 static void on_fault(int sig) { if (g_in_call) { g_in_call = 0; siglongjmp(g_jb, sig); } vh::on_fatal_signal(sig); }
 
-// one interop case: dir 0 = asmjit caller -> C callee, dir 1 = C caller -> asmjit callee
+
+// ---- the same two directions through x86::Compiler: invoke() marshals the arguments (RACFGBuilder::on_before_invoke) and
+// ---- add_func()/set_arg() assigns the incoming ones; the harness never looks at FuncDetail here
+static bool cc_vreg(x86::Compiler& cc, uint8_t t, Reg& r) {
+  switch (t) {
+    case T_I8: case T_U8: case T_I16: case T_U16: case T_I32: case T_U32: r = cc.new_gp32(); return true;
+    case T_I64: case T_U64: r = cc.new_gp64(); return true;
+    case T_F32: r = cc.new_xmm_ss(); return true;
+    case T_F64: r = cc.new_xmm_sd(); return true;
+    case T_V128I: case T_V128F: r = cc.new_xmm(); return true;
+    case T_V256: r = cc.new_ymm(); return true;
+    case T_V512: r = cc.new_zmm(); return true;
+    default: return false;
+  }
+}
+static Error cc_load(x86::Compiler& cc, uint8_t t, const Reg& r, x86::Mem m) {
+  switch (t) {
+    case T_I8: case T_U8: case T_I16: case T_U16: case T_I32: case T_U32: m.set_size(4); return cc.mov(r.as<x86::Gp>(), m);
+    case T_I64: case T_U64: m.set_size(8); return cc.mov(r.as<x86::Gp>(), m);
+    case T_F32: return cc.movss(r.as<x86::Vec>(), m);
+    case T_F64: return cc.movsd(r.as<x86::Vec>(), m);
+    case T_V128I: case T_V128F: return cc.movups(r.as<x86::Vec>(), m);
+    default: return cc.vmovups(r.as<x86::Vec>(), m);
+  }
+}
+static Error cc_store(x86::Compiler& cc, uint8_t t, x86::Mem m, const Reg& r) {
+  switch (t) {
+    case T_I8: case T_U8: case T_I16: case T_U16: case T_I32: case T_U32: m.set_size(4); return cc.mov(m, r.as<x86::Gp>());
+    case T_I64: case T_U64: m.set_size(8); return cc.mov(m, r.as<x86::Gp>());
+    case T_F32: return cc.movss(m, r.as<x86::Vec>());
+    case T_F64: return cc.movsd(m, r.as<x86::Vec>());
+    case T_V128I: case T_V128F: return cc.movups(m, r.as<x86::Vec>());
+    default: return cc.vmovups(m, r.as<x86::Vec>());
+  }
+}
+static CallConvId ic_conv_id(int ic) { return ic == IC_SYSV ? CallConvId::kX64SystemV : ic == IC_WIN64 ? CallConvId::kX64Windows : CallConvId::kVectorCall; }
+#define CCE(x) do { Error _e = (x); if (_e != Error::kOk) { why = std::string(#x) + " failed: " + DebugUtils::error_as_string(_e); return false; } } while (0)
+
+// x86::Compiler caller: loads the tagged values into virtual registers and invoke()s the C callee with the convention's signature
+// byref_gp: arguments FuncDetail passes by reference are given as a pointer held in a general purpose register (the other form invoke() accepts)
+static bool gen_cc_invoker(int ic, const IS& s, void* callee, void (**out)(void), std::string& why, bool& skip, const FuncDetail* byref_gp = nullptr) {
+  CodeHolder code; code.init(Environment::host());
+  x86::Compiler cc(&code);
+  FuncNode* fn = cc.add_func(FuncSignature::build<void>());
+  fn->frame().set_avx_enabled(); if (s.has_512) fn->frame().set_avx512_enabled();
+  FuncSignature sig(ic_conv_id(ic)); sig.set_ret(kT[s.ret].id);
+  for (int i = 0; i < s.n; i++) sig.add_arg(kT[s.args[i]].id);
+  x86::Gp tags = cc.new_gp64(), retp = cc.new_gp64();
+  CCE(cc.mov(tags, uint64_t(uintptr_t(&g_tags[0][0])))); CCE(cc.mov(retp, uint64_t(uintptr_t(g_retbuf))));
+  std::vector<Reg> regs(size_t(s.n));
+  for (int i = 0; i < s.n; i++) {
+    if (byref_gp && byref_gp->arg(size_t(i)).is_indirect()) { x86::Gp p = cc.new_gp64(); CCE(cc.lea(p, x86::ptr(tags, 64 * i))); regs[size_t(i)] = p; continue; }
+    if (!cc_vreg(cc, s.args[i], regs[size_t(i)])) { skip = true; return false; }
+    CCE(cc_load(cc, s.args[i], regs[size_t(i)], x86::ptr(tags, 64 * i)));
+  }
+  Reg rr; if (!cc_vreg(cc, s.ret, rr)) { skip = true; return false; }
+  InvokeNode* inv = nullptr;
+  CCE(cc.invoke(Out(inv), Imm(uint64_t(uintptr_t(callee))), sig));
+  for (int i = 0; i < s.n; i++) inv->set_arg(size_t(i), regs[size_t(i)]);
+  inv->set_ret(0, rr);
+  CCE(cc_store(cc, s.ret, x86::ptr(retp), rr));
+  CCE(cc.ret()); CCE(cc.end_func()); CCE(cc.finalize());
+  if (g_rt->add(out, &code) != Error::kOk) { why = "JitRuntime::add failed"; return false; }
+  return true;
+}
+
+// x86::Compiler callee: a function of the convention's signature whose arguments are bound to virtual registers and captured
+static bool gen_cc_callee(int ic, const IS& s, void** out, std::string& why, bool& skip) {
+  CodeHolder code; code.init(Environment::host());
+  x86::Compiler cc(&code);
+  FuncSignature sig(ic_conv_id(ic)); sig.set_ret(kT[s.ret].id);
+  for (int i = 0; i < s.n; i++) sig.add_arg(kT[s.args[i]].id);
+  for (int i = 0; i <= s.n; i++) { uint8_t t = i < s.n ? s.args[i] : s.ret; if (t == T_F80 || t == T_MMX || t == T_V64 || t == T_IPTR || t >= T_COUNT) { skip = true; return false; } }
+  FuncNode* fn = cc.add_func(sig);
+  if (!fn) { why = "add_func failed"; return false; }
+  fn->frame().set_avx_enabled(); if (s.has_512) fn->frame().set_avx512_enabled();
+  std::vector<Reg> regs(size_t(s.n));
+  for (int i = 0; i < s.n; i++) { cc_vreg(cc, s.args[i], regs[size_t(i)]); fn->set_arg(size_t(i), regs[size_t(i)]); }
+  x86::Gp cap = cc.new_gp64();
+  CCE(cc.mov(cap, uint64_t(uintptr_t(g_capbuf))));
+  for (int i = 0; i < s.n; i++) CCE(cc_store(cc, s.args[i], x86::ptr(cap, 64 * i), regs[size_t(i)]));
+  Reg rr; cc_vreg(cc, s.ret, rr);
+  CCE(cc.mov(cap, uint64_t(uintptr_t(&g_tags[65][0]))));
+  CCE(cc_load(cc, s.ret, rr, x86::ptr(cap)));
+  CCE(cc.ret(rr)); CCE(cc.end_func()); CCE(cc.finalize());
+  if (g_rt->add(out, &code) != Error::kOk) { why = "JitRuntime::add failed"; return false; }
+  return true;
+}
+
+
+// calls fn() with the stack pointer at the call == -mod (mod 64), mod in {0,16,32,48}: every alignment an ABI-conforming caller can
+// produce; also provides the Win64 home space.  Makes the outcome independent of how the harness process' stack happens to be aligned.
+static void (*g_align_trampoline)(void*, uint64_t) = nullptr;
+static bool gen_align_trampoline() {
+  CodeHolder code; code.init(Environment::host());
+  x86::Assembler a(&code);
+  using namespace x86;
+  a.push(rbp); a.mov(rbp, rsp); a.sub(rsp, 192); a.and_(rsp, -64); a.sub(rsp, rsi); a.call(rdi); a.mov(rsp, rbp); a.pop(rbp); a.ret();
+  return g_rt->add(&g_align_trampoline, &code) == Error::kOk;
+}
+
+static void interop_cc_case(int ic, int dir, const IS& s, const FuncDetail& fd, void* fn, ILib& lib, const std::string& keyb, const std::string& what, const std::string& rp) {
+  vh::Ctx& c = vh::ctx();
+  std::string why; bool skip = false;
+  void (*thunk)(void) = nullptr; void* callee = nullptr;
+  if (dir == 4) { bool any = false; for (int i = 0; i < s.n; i++) if (fd.arg(size_t(i)).is_indirect()) any = true; if (!any) { c.n("interop_cc_skipped")++; return; } }
+  bool ok = dir == 3 ? gen_cc_callee(ic, s, &callee, why, skip) : gen_cc_invoker(ic, s, fn, &thunk, why, skip, dir == 4 ? &fd : nullptr);
+  if (!ok) {
+    if (skip) { c.n("interop_cc_skipped")++; return; }
+    // by-reference arguments: FuncArgsContext documents incoming ones as not supported, and reports kInvalidAssignment - a refusal, not a wrong value
+    bool indirect = false; for (int i = 0; i < s.n; i++) if (fd.arg(size_t(i)).is_indirect()) indirect = true;
+    if (dir == 3 && indirect && why.find("InvalidAssignment") != std::string::npos) { c.n("interop_cc_refused_byref_incoming")++; return; }
+    c.violation(keyb + ":compiler-error", std::string("the Compiler refuses the ") + (dir != 3 ? "call" : "function") + " (" + why + ") :: " + what, rp); return;
+  }
+  void* code_ptr = dir != 3 ? (void*)thunk : callee;
+  for (uint64_t mod = 0; mod < 64; mod += 16) {
+    const uint8_t* got_args; int tag0, rtag;
+    std::string at = " [stack pointer at the call = -" + std::to_string(mod) + " mod 64]";
+    memset(lib.cap, 0xDD, 33 * 64); memset(g_capbuf, 0xDD, sizeof g_capbuf); memset(g_retbuf, 0xDD, sizeof g_retbuf);
+    if (dir == 3) { lib.par->fn = callee; lib.par->ret = g_retbuf; }
+    int sig = sigsetjmp(g_jb, 1);
+    if (sig == 0) { g_in_call = 1; g_align_trampoline(dir != 3 ? (void*)thunk : fn, mod); g_in_call = 0; }
+    if (sig != 0) { g_rt->release(code_ptr); c.violation(keyb + ":crash", std::string(dir != 3 ? "the call made by the Compiler-generated function" : "the Compiler-generated function") + " faults (signal " + std::to_string(sig) + ")" + at + " :: " + what, rp); return; }
+    if (dir != 3) { got_args = lib.cap; tag0 = 0; rtag = 32; } else { got_args = g_capbuf; tag0 = 33; rtag = 65; }
+    for (int i = 0; i < s.n; i++) {
+      int n = cmp_size(s.args[i]);
+      if (memcmp(got_args + 64 * i, g_tags[tag0 + i], size_t(n)) != 0) {
+        Loc l = actual_of(fd.arg(size_t(i)));
+        g_rt->release(code_ptr);
+        c.violation(keyb + ":" + cls_key(s.args[i], 64), std::string("argument ") + std::to_string(i) + " (" + tname(s.args[i]) + ", FuncDetail: " + l.str() + ") arrives as " +
+                    describe_bytes(got_args + 64 * i, n, tag0) + " instead of its tagged value " + hexn(g_tags[tag0 + i], std::min(n, 16)) + at + " :: " + what, rp);
+        return;
+      }
+    }
+    int n = cmp_size(s.ret);
+    if (memcmp(g_retbuf, g_tags[rtag], size_t(n)) != 0) {
+      g_rt->release(code_ptr);
+      c.violation(keyb + "-ret:" + cls_key(s.ret, 64), std::string("return value (") + tname(s.ret) + ") does not arrive: expected the tagged value " + hexn(g_tags[rtag], std::min(n, 16)) + at + " :: " + what, rp);
+      return;
+    }
+  }
+  g_rt->release(code_ptr);
+  c.n("interop_cc_cases")++;
+  c.sample(std::string("interop ") + what, 8);
+}
+
+// one interop case: dir 0 = asmjit caller -> C callee, dir 1 = C caller -> asmjit callee (both hand-placed from FuncDetail);
+// dir 2 = x86::Compiler invoke() -> C callee, dir 3 = C caller -> x86::Compiler function
 static void interop_case(int k, int ic, int dir, ILib& lib, bool avx512) {
   vh::Ctx& c = vh::ctx();
   IS s; parse_isig(kInteropSigs[k], s);
   if (!ic_applicable(ic, s, avx512)) return;
-  const char* dname = dir == 0 ? "call" : "callee";
+  const char* dname = dir == 0 ? "call" : dir == 1 ? "callee" : dir == 2 ? "cc-invoke" : dir == 3 ? "cc-func" : "cc-invoke-byref-gp";
   std::string rp = std::string("harness=c06_abi\ninterop sig=") + std::to_string(k) + " conv=" + ic_name(ic) + " dir=" + dname + " spec=" + kInteropSigs[k] + "\n";
   vh::set_case(rp);
   Environment env = ic == IC_SYSV ? Environment(Arch::kX64, SubArch::kUnknown, Vendor::kUnknown, Platform::kLinux, PlatformABI::kGNU)
@@ -1225,14 +1372,15 @@ static void interop_case(int k, int ic, int dir, ILib& lib, bool avx512) {
   FuncDetail fd;
   c.n("evaluations")++; c.n("distinct_nontrivial")++; c.n("interop_cases")++;
   std::string keyb = std::string("abi:x64:") + ic_name(ic) + ":interop-" + dname;
-  std::string what = std::string("signature ") + kInteropSigs[k] + ", " + ic_name(ic) + ", " + (dir == 0 ? "asmjit-generated caller -> clang-compiled callee" : "clang-compiled caller -> asmjit-generated callee");
+  std::string what = std::string("signature ") + kInteropSigs[k] + ", " + ic_name(ic) + ", " + (dir == 0 ? "asmjit-generated caller -> clang-compiled callee" : dir == 1 ? "clang-compiled caller -> asmjit-generated callee" : dir == 2 ? "x86::Compiler invoke() -> clang-compiled callee" : dir == 3 ? "clang-compiled caller -> x86::Compiler function" : "x86::Compiler invoke() with by-reference arguments given as pointers -> clang-compiled callee");
   if (fd.init(sig, env) != Error::kOk) { c.violation(keyb + ":init-error", "FuncDetail::init() fails :: " + what, rp); return; }
-  char sym[64]; snprintf(sym, sizeof sym, "%s_%s_%d", dir == 0 ? "cs" : "cl", ic_name(ic), k);
+  char sym[64]; snprintf(sym, sizeof sym, "%s_%s_%d", (dir & 1) == 0 ? "cs" : "cl", ic_name(ic), k);
   void* fn = dlsym(lib.h, sym);
   if (!fn) { fprintf(stderr, "missing symbol %s\n", sym); exit(2); }
   std::string why;
+  if (dir >= 2) { interop_cc_case(ic, dir, s, fd, fn, lib, keyb, what, rp); return; }
   const uint8_t* got_args; int tag0; const uint8_t* got_ret; int rtag;
-  if (dir == 0) {
+  if ((dir & 1) == 0) {
     void (*thunk)(void) = nullptr;
     if (!gen_caller(fd, s, fn, &thunk, why)) { c.violation(keyb + ":unplaceable", "cannot place the arguments as FuncDetail says (" + why + ") :: " + what, rp); return; }
     memset(lib.cap, 0xDD, 33 * 64); memset(g_retbuf, 0xDD, sizeof g_retbuf);
@@ -1278,23 +1426,23 @@ static int interop_main(bool avx512) {
   if (!CpuInfo::host().has_feature(CpuFeatures::X86::kAVX) || (avx512 && !CpuInfo::host().has_feature(CpuFeatures::X86::kAVX512_F))) { fprintf(stderr, "host lacks the ISA the interop libraries were built for\n"); return 2; }
   ILib libs[2];
   if (!open_lib(c.opt("lib-sysv"), libs[0]) || !open_lib(c.opt("lib-win"), libs[1])) return 2;
-  if (!gen_trampoline()) return 2;
+  if (!gen_trampoline() || !gen_align_trampoline()) return 2;
   for (int sg : {SIGSEGV, SIGBUS, SIGILL, SIGFPE}) signal(sg, on_fault);
   if (c.replaying()) {
     int k = -1; char conv[32] = "", dir[32] = "";
     size_t p = c.replay_text.find("interop sig=");
     if (p == std::string::npos || sscanf(c.replay_text.c_str() + p, "interop sig=%d conv=%31s dir=%31s", &k, conv, dir) != 3 || k < 0 || k >= kNumInteropSigs) { fprintf(stderr, "bad interop replay\n"); return 2; }
     int ic = !strcmp(conv, "sysv") ? IC_SYSV : !strcmp(conv, "win64") ? IC_WIN64 : IC_VECTORCALL;
-    interop_case(k, ic, !strcmp(dir, "call") ? 0 : 1, libs[ic == IC_SYSV ? 0 : 1], avx512);
+    interop_case(k, ic, !strcmp(dir, "call") ? 0 : !strcmp(dir, "callee") ? 1 : !strcmp(dir, "cc-invoke") ? 2 : !strcmp(dir, "cc-func") ? 3 : 4, libs[ic == IC_SYSV ? 0 : 1], avx512);
     return vh::finish();
   }
   long long idx = 0;
-  for (int k = 0; k < kNumInteropSigs; k++) for (int ic = 0; ic < IC_COUNT; ic++) for (int dir = 0; dir < 2; dir++) {
+  for (int k = 0; k < kNumInteropSigs; k++) for (int ic = 0; ic < IC_COUNT; ic++) for (int dir = 0; dir < 5; dir++) {
     if (!c.mine(idx++)) continue;
     interop_case(k, ic, dir, libs[ic == IC_SYSV ? 0 : 1], avx512);
   }
   c.n("traces") = c.n("evaluations"); c.n("states") = c.n("evaluations"); c.n("transitions") = c.n("evaluations");
-  c.strs["bound_interop"] = std::to_string(kNumInteropSigs) + " fixed signatures x {System V (native clang), Win64, __vectorcall (clang --target=x86_64-pc-windows-msvc)} x {asmjit caller -> C callee, C caller -> asmjit callee}, executed on the host";
+  c.strs["bound_interop"] = std::to_string(kNumInteropSigs) + " fixed signatures x {System V (native clang), Win64, __vectorcall (clang --target=x86_64-pc-windows-msvc)} x {asmjit caller -> C callee, C caller -> asmjit callee (hand-placed from FuncDetail), x86::Compiler invoke() -> C callee (by-reference arguments as values and as pointers), C caller -> x86::Compiler function; each at the four 16-byte stack alignments mod 64}, executed on the host";
   return vh::finish();
 }
 
